@@ -33,7 +33,17 @@ VOL == 71           NONVOL == 72
 
 Comms(n) == UNION {[1..k -> Alphabet] : k \in 0..n}
 Pattern(len) == [i \in 1..len |-> IF i % 3 = 0 THEN 41 ELSE IF i % 3 = 1 THEN 97 ELSE 32]  \* "a )a )..."
-AllComms == Comms(MaxLen) \cup {Pattern(l) : l \in LongLens}
+\* names that look like a line of the status record or like the tail of the stat
+\* record: "Uid:\t7\t8\t9", "Gid:\t7\t8\t9", "Threads:\t99", "PPid:\t1",
+\* "State:\tZ (zo)", "x) R 9 8 7 6 5".  The kernel escapes only '\n' and '\\' on the
+\* Name: line, so a tab reaches the reader as it is.
+Lookalikes == { <<85, 105, 100, 58, 9, 55, 9, 56, 9, 57>>,
+                <<71, 105, 100, 58, 9, 55, 9, 56, 9, 57>>,
+                <<84, 104, 114, 101, 97, 100, 115, 58, 9, 57, 57>>,
+                <<80, 80, 105, 100, 58, 9, 49>>,
+                <<83, 116, 97, 116, 101, 58, 9, 90, 32, 40, 122, 111, 41>>,
+                <<120, 41, 32, 82, 32, 57, 32, 56, 32, 55, 32, 54, 32, 53>> }
+AllComms == Comms(MaxLen) \cup {Pattern(l) : l \in LongLens} \cup Lookalikes
 
 \* the kernel keeps at most 15 bytes of a name (TASK_COMM_LEN - 1)
 Trunc(c) == IF Len(c) > 15 THEN SubSeq(c, 1, 15) ELSE c
